@@ -38,6 +38,45 @@ def load_known():
     return json.load(open(p)).get("findings", [])
 
 
+def split_tasks(key, cfg):
+    """For a function with many paths: enumerate decision prefixes of the contract's split depth (cheap, no solving of
+    obligations) and return one task per prefix."""
+    from pyvc.verify import verify_fuc
+    con = REG.contracts[key]
+    ecfg = dict(cfg)
+    ecfg["enumerate_depth"] = con.split
+    res = verify_fuc(key, ecfg)
+    if res.error:
+        return [(key, cfg)]
+    seen, out = set(), []
+    for p_ in res.prefixes:
+        t = tuple(p_)
+        if t not in seen:
+            seen.add(t)
+            c2 = dict(cfg)
+            c2["start_trace"] = list(p_)
+            out.append((key, c2))
+    return out or [(key, cfg)]
+
+
+def split_tasks_star(a):
+    return split_tasks(*a)
+
+
+def merge_results(parts):
+    base = parts[0]
+    for p_ in parts[1:]:
+        base["obligations"] += p_["obligations"]
+        base["paths"] += p_["paths"]
+        base["refutations"] += p_["refutations"]
+        base["secs"] = max(base["secs"], p_["secs"])
+        base["error"] = base["error"] or p_["error"]
+        for l in p_["log"]:
+            if l not in base["log"]:
+                base["log"].append(l)
+    return base
+
+
 def worker(args):
     key, cfg = args
     from pyvc.verify import verify_fuc
@@ -120,8 +159,17 @@ def main(argv=None):
     thorough = a.tier == "thorough"
     cfg = {"timeout_ms": 60000 if thorough else 15000, "both": thorough, "cvc5": True, "samples": True,
            "known": known, "prop": prop}
-    with mp.get_context("fork").Pool(max(1, min(a.jobs, len(keys)))) as pool:
-        results = pool.map(worker, [(k, cfg) for k in keys], chunksize=1)
+    with mp.get_context("fork").Pool(max(1, a.jobs)) as pool:
+        tasks = []
+        big = [k for k in keys if REG.contracts[k].split]
+        for parts in pool.map(split_tasks_star, [(k, cfg) for k in big], chunksize=1):
+            tasks += parts
+        tasks += [(k, cfg) for k in keys if not REG.contracts[k].split]
+        raw = pool.map(worker, tasks, chunksize=1)
+    by_key: Dict[str, list] = {}
+    for r_ in raw:
+        by_key.setdefault(r_["key"], []).append(r_)
+    results = [merge_results(by_key[k]) for k in keys]
     from pyvc.frames import check_writers
     for rule in REG.writer_rules:
         if rule["prop"] == prop and not a.only:
